@@ -56,12 +56,45 @@ inductive Val where
   | set (bs : List (Text × Val))
 deriving Repr
 
+mutual
+def Val.decEq : (a b : Val) → Decidable (a = b)
+  | .lit n, .lit m =>
+    if h : n = m then isTrue (by rw [h]) else isFalse (by intro h'; injection h' with h'; exact h h')
+  | .imp a, .imp b =>
+    if h : a = b then isTrue (by rw [h]) else isFalse (by intro h'; injection h' with h'; exact h h')
+  | .set as, .set bs =>
+    match Val.decEqL as bs with
+    | isTrue h => isTrue (by rw [h])
+    | isFalse h => isFalse (by intro h'; injection h' with h'; exact h h')
+  | .lit _, .imp _ => isFalse (by intro h; cases h)
+  | .lit _, .set _ => isFalse (by intro h; cases h)
+  | .imp _, .lit _ => isFalse (by intro h; cases h)
+  | .imp _, .set _ => isFalse (by intro h; cases h)
+  | .set _, .lit _ => isFalse (by intro h; cases h)
+  | .set _, .imp _ => isFalse (by intro h; cases h)
+def Val.decEqL : (a b : List (Text × Val)) → Decidable (a = b)
+  | [], [] => isTrue rfl
+  | [], _ :: _ => isFalse (by intro h; cases h)
+  | _ :: _, [] => isFalse (by intro h; cases h)
+  | (k, v) :: r, (k', v') :: r' =>
+    if hk : k = k' then
+      match Val.decEq v v' with
+      | isTrue hv =>
+        match Val.decEqL r r' with
+        | isTrue hr => isTrue (by rw [hk, hv, hr])
+        | isFalse hr => isFalse (by intro h; injection h with _ h2; exact hr h2)
+      | isFalse hv => isFalse (by intro h; injection h with h1 _; injection h1 with _ h4; exact hv h4)
+    else isFalse (by intro h; injection h with h1 _; injection h1 with h3 _; exact hk h3)
+end
+
+instance : DecidableEq Val := Val.decEq
+
 /-- The top-level expression of a file: an attribute set (possibly under let / lambda / with
     wrappers, which `_resolve_target_set` looks through) or something else. -/
 inductive Content where
   | attrs (bs : List (Text × Val))
   | notSet
-deriving Repr
+deriving Repr, DecidableEq
 
 /-- A filesystem WITHOUT symlinks: regular files by canonical absolute path, plus explicitly
     listed (possibly empty) directories. Every proper prefix of an entry is a directory. -/
